@@ -51,3 +51,143 @@ def ellipsis_match(got, want):
     if '...' not in want:
         return got == want
     return ematch(got, pieces(want))
+
+
+# ----------------------------------------------------------------- C03: names
+
+@uninterp('(str) -> int',
+          facts=["0 <= result and result <= len(msg)",
+                 "all(msg[k] != '\\n' and msg[k] != ':' for k in range(0, result))",
+                 "result == len(msg) or msg[result] == '\\n' or msg[result] == ':'"],
+          note="definite description: first position of a newline or colon, else len(msg)")
+def name_end(msg):
+    """End of the exception name: the first newline or colon (the name is on the first line, before the colon)."""
+    for k, ch in enumerate(msg):
+        if ch == '\n' or ch == ':':
+            return k
+    return len(msg)
+
+
+@uninterp('(str) -> int',
+          facts=["0 <= result and result <= name_end(msg)",
+                 "all(msg[k] != '.' for k in range(result, name_end(msg)))",
+                 "result == 0 or msg[result - 1] == '.'"],
+          note="definite description: position after the last dot before name_end(msg), else 0")
+def name_start(msg):
+    """Start of the bare exception name: after the last dot of the dotted path."""
+    e = name_end(msg)
+    k = e
+    while k > 0 and msg[k - 1] != '.':
+        k -= 1
+    return k
+
+
+def exc_name(msg):
+    """'foo.bar.MyError: la di da' -> 'MyError' (statement of C03: only the type has to agree)."""
+    return substr(msg, name_start(msg), name_end(msg) - name_start(msg))
+
+
+# --------------------------------------------------- C03: traceback-shaped wants
+
+_HDRS = ('Traceback (most recent call last):', 'Traceback (innermost last):')
+
+
+def _exc_want(want):
+    """Independent, procedural reading of "a traceback block": a header line, an optional
+    stack, and a final part that begins at the first later line starting with a word
+    character (and, as in the standard doctest module, extends to the end of the text)."""
+    import textwrap
+    text = textwrap.dedent(want).strip('\n')
+    lines = text.split('\n')
+    for i, line in enumerate(lines):
+        for h in _HDRS:
+            if line.startswith(h) and line[len(h):].strip() == '':
+                for j in range(i + 1, len(lines)):
+                    if re.match(r'\w', lines[j]):
+                        return '\n'.join(lines[j:])
+    return None
+
+
+@uninterp('(str) -> bool', note="want has no traceback shape (trusted: _EXCEPTION_RE; bounded cross-check C03.shape)")
+def exc_want_none(want):
+    return _exc_want(want) is None
+
+
+@uninterp('(str) -> str', note="final part of a traceback-shaped want (trusted: _EXCEPTION_RE)")
+def exc_want(want):
+    r = _exc_want(want)
+    return '' if r is None else r
+
+
+# ------------------------------------------------------- the matching relation
+
+@uninterp('(str, str, Val) -> bool',
+          facts=["implies(want == '', result)", "implies(got == want, result)"],
+          note="the got/want relation of C05 under the flags of the given runtime state; "
+               "decided by checker.check_output (contract verified under C05)")
+def match(got, want, rs):
+    from specs import matchrel
+    return matchrel.match(got, want, rs)
+
+
+def flag(rs, key):
+    """Effective value of a boolean directive flag in a runtime state (lookup semantics of C04)."""
+    if rs is None:
+        from xdoctest import directive
+        return directive.DEFAULT_RUNTIME_STATE[key]
+    return rs[key]
+
+
+def exc_match(exc_got, want, rs):
+    """C03: the final line matches, or with IGNORE_EXCEPTION_DETAIL only the type has to agree."""
+    ew = exc_want(want)
+    return match(exc_got, ew, rs) or (flag(rs, 'IGNORE_EXCEPTION_DETAIL')
+                                       and match(exc_name(exc_got), exc_name(ew), rs))
+
+
+# ------------------------------------------------------------- C02: got vs want
+
+from xdoctest import constants
+
+
+@uninterp('(Val) -> bool', note="oracle: repr(v) raises an Exception")
+def repr_raises(v):
+    try:
+        repr(v)
+    except Exception:
+        return True
+    return False
+
+
+@uninterp('(Val) -> str', note="oracle: repr(v)")
+def repr_of(v):
+    return repr(v)
+
+
+def not_evaled(v):
+    return v is constants.NOT_EVALED
+
+
+def value_matches(want, ev, rs):
+    return (not repr_raises(ev)) and match(repr_of(ev), want, rs)
+
+
+def V(want, out, ev, rs):
+    """C02: the want is satisfied by the output text `out` and/or the value `ev` of the final expression:
+    stdout if nothing was evaluated; the repr of the value if nothing was printed; either one otherwise."""
+    if not_evaled(ev):
+        return match(out, want, rs)
+    if out == '':
+        return value_matches(want, ev, rs)
+    return match(out, want, rs) or value_matches(want, ev, rs)
+
+
+def repr_fails(want, out, ev, rs):
+    """The repr of the value is needed to decide and raises."""
+    return (not not_evaled(ev)) and repr_raises(ev) and (out == '' or not match(out, want, rs))
+
+
+@rec('(list[str], int) -> str')
+def suffix_join(gots, m):
+    """Concatenation of the last m outputs."""
+    return ''.join(gots[len(gots) - m:])
